@@ -96,8 +96,8 @@ Tick ==
   /\ a.now < MaxNow
   /\ LET r == TickF(a)
          em == r[2]
-         gone == {<<s, i>> \in Series \X (0..(MaxTs + F)) :
-                     Idx(a.buf[s], i) # 0 /\ Idx(r[1].buf[s], i) = 0}
+         \* (the intervals are read off the buffers themselves: timestamps from before the epoch give negative intervals)
+         gone == UNION {{<<s, a.buf[s][k].i>> : k \in {j \in 1..Len(a.buf[s]) : Idx(r[1].buf[s], a.buf[s][j].i) = 0}} : s \in Series}
      IN /\ a' = r[1]
         /\ emitted' = emitted \o em
         /\ viol' = viol \cup UNION {EmitViol(em[k], sinceEmit, recvAll, expired) : k \in 1..Len(em)}
